@@ -326,6 +326,10 @@ def check(eng, res):
     res.doc("R-DIST-TABLE", "written name selects the class of that name (writer keyword == reader literals; first matching dispatch test)")
     res.doc("R-PARAM-ROLE", "dataflow from text position to sampler role, independent of attribute names")
     res.doc("R-ONE-DRAW", "one unshared draw per object per generation (from C07)")
+    res.doc("R-DO-WHILE", "at least one unit (from C07)")
+    res.doc("R-STOP-TEST", "stop at the first unit beyond the drawn target (from C07)")
+    res.doc("R-LAW-FORMULA", "the hand-written laws are the documented formulas; law objects untruncated; draws unchanged (from C11)")
+    res.doc("R-INTERVAL", "interval probability = cdf difference (from C11)")
     res.doc("R-DRAW-PARAMS", "rvs / cdf / pmf receive the same parameters (from C11)")
     n = dist_table(eng, res)
     res.floor("R-DIST-TABLE", n, 6)
@@ -335,12 +339,13 @@ def check(eng, res):
     from . import c11
 
     c11.draw_params(eng, res)
-    # one draw (shared with C07)
+    c11.law_formulas(eng, res)
+    c11.interval(eng, res)
+    # the loop law links the draw to the block size: one draw, at least one unit, stop at the first unit beyond the target (from C07)
     G = c07.Growth(eng)
     sub = type(res)(res.prop)
     c07.check_growth(eng, sub, G)
     for o in sub.obligations:
-        if o.rule == "R-ONE-DRAW":
-            res.obligations.append(o)
+        res.obligations.append(o)
     res.assumptions += ["SciPy's norm/uniform/poisson/rv_discrete/rv_continuous sample the law their parameters describe", "documented roles: gauss(mean, sigma), uniform(low, high), schulz_zimm(Mw, Mn), log_normal(Mn, dispersity), poisson(mean), flory_schulz(a)"]
     res.not_decided += ["the statistical law of block sizes (convergence of frequencies)", "numerical behaviour of the samplers"]
